@@ -10,15 +10,28 @@ Local Arguments is_manifest : simpl never.
 Local Arguments limit_reader : simpl never.
 
 (* ---------- presence only grows (there is no Delete) ---------- *)
+(* whatever file_index and file_restore preserve, the steps after a store preserve *)
+Lemma file_index_after_rel (R : file_store -> file_store -> Prop) fx ov d s :
+  (forall a, R a a) -> (forall a b c, R a b -> R b c -> R a c) ->
+  (forall d0 a, R a (fst (file_index d0 a))) -> (forall tl a, R a (fst (file_restore fx ov tl a))) ->
+  R s (fst (file_index_after fx ov d s)).
+Proof.
+  intros Hrefl Htr Hi Hr. unfold file_index_after. pose proof (Hi d s) as H2.
+  destruct (file_index d s) as [s2 r]. cbn [fst] in H2.
+  destruct r as [o|e]; [|exact H2]. destruct o; try exact H2.
+  destruct (is_manifest (d_mt d)); [|exact H2].
+  destruct (file_fetch d s2) as [c1|]; [|exact H2]. destruct (d_dig d =? b_hash c1); [|exact H2].
+  pose proof (Hr (b_tl c1) s2) as H3. destruct (file_restore fx ov (b_tl c1) s2) as [s3 [e|]]; cbn [fst] in *;
+    eapply Htr; eauto.
+Qed.
+
 Lemma fle_index_after fx ov d s : fle s (fst (file_index_after fx ov d s)).
 Proof.
-  unfold file_index_after.
-  assert (Hi : forall s0, fle s0 (fst (file_index d s0))) by (intro s0; apply fle_core; symmetry; apply fcore_index).
-  destruct (is_manifest (d_mt d)); [|apply Hi].
-  destruct (file_fetch d s) as [c1|]; [|apply fle_refl]. destruct (d_dig d =? b_hash c1); [|apply fle_refl].
-  pose proof (fle_restore fx ov (b_tl c1) s) as Hr.
-  destruct (file_restore fx ov (b_tl c1) s) as [s2 [e|]]; cbn [fst] in *; [exact Hr|].
-  eapply fle_trans; [exact Hr | apply Hi].
+  apply file_index_after_rel.
+  - apply fle_refl.
+  - apply fle_trans.
+  - intros d0 a. apply fle_core. symmetry. apply fcore_index.
+  - intros tl a. apply fle_restore.
 Qed.
 
 Lemma file_step_fle fx ig ov s o : fle s (fst (file_step fx ig ov s o)).
@@ -109,10 +122,7 @@ Proof.
   { intros. unfold file_index. destruct (is_manifest (d_mt d0)); [|reflexivity].
     destruct (file_fetch d0 s0) as [c1|]; [|reflexivity]. destruct (d_dig d0 =? b_hash c1); reflexivity. }
   assert (Hia : forall d0 s0, f_cas (fst (file_index_after fx ov d0 s0)) = f_cas s0).
-  { intros. unfold file_index_after. destruct (is_manifest (d_mt d0)); [|apply Hi].
-    destruct (file_fetch d0 s0) as [c1|]; [|reflexivity]. destruct (d_dig d0 =? b_hash c1); [|reflexivity].
-    pose proof (Hr (b_tl c1) s0) as X. destruct (file_restore fx ov (b_tl c1) s0) as [s2 [e|]]; cbn [fst] in *; [exact X|].
-    rewrite Hi. exact X. }
+  { intros d0 s0. apply (file_index_after_rel (fun a b => f_cas b = f_cas a)); auto. intros; congruence. }
   destruct o; try exact H.
   - rewrite file_step_push_split. unfold file_push_store. destruct (d_name d =? 0).
     + destruct ig.
@@ -145,11 +155,11 @@ Proof.
       pose proof (file_cas_immutable fx false ov s1 (Fetch d) (gk d) (limit_reader d c)) as X end.
     clear X.
     assert (Hia : forall s0, f_cas (fst (file_index_after fx ov d s0)) = f_cas s0).
-    { intro s0. pose proof (fcore_index_after fx ov d) as _. 
-      unfold file_index_after, file_index. destruct (is_manifest (d_mt d)); [|reflexivity].
-      destruct (file_fetch d s0) as [c1|]; [|reflexivity]. destruct (d_dig d =? b_hash c1); [|reflexivity].
-      assert (Hr : forall tl s1, f_cas (fst (file_restore fx ov tl s1)) = f_cas s1).
-      { induction tl as [|[k0 n] tl IH]; intro s1; [reflexivity|]. cbn [file_restore].
+    { intro s0. apply (file_index_after_rel (fun a b => f_cas b = f_cas a)); auto.
+      - intros; congruence.
+      - intros d0 a. unfold file_index. destruct (is_manifest (d_mt d0)); [|reflexivity].
+        destruct (file_fetch d0 a) as [c1|]; [|reflexivity]. destruct (d_dig d0 =? b_hash c1); reflexivity.
+      - induction tl as [|[k0 n] tl IH]; intro s1; [reflexivity|]. cbn [file_restore].
         destruct ((n =? 0) || mem N.eqb n (f_names s1)); [apply IH|].
         destruct (file_fetch _ s1) as [c2|]; [|apply IH].
         match goal with |- context [file_named_push fx ov s1 k0 n ?cc] =>
@@ -157,10 +167,8 @@ Proof.
             by (unfold file_named_push; destruct (mem N.eqb n (f_names s1)); auto; destruct (bad_name n); auto;
                 destruct (ov && _); auto; destruct (_ && _); reflexivity);
           destruct (file_named_push fx ov s1 k0 n cc) as [s3 [e|]] end; cbn [fst] in X.
-        - destruct e as [o0|[| |]]; try exact X. rewrite IH. exact X.
-        - rewrite IH. exact X. }
-      pose proof (Hr (b_tl c1) s0) as X. destruct (file_restore fx ov (b_tl c1) s0) as [s2' [e|]]; cbn [fst] in *; [exact X|].
-      destruct (file_fetch d s2') as [c3|]; [|exact X]. destruct (d_dig d =? b_hash c3); exact X. }
+        + destruct e as [o0|[| |]]; try exact X. rewrite IH. exact X.
+        + rewrite IH. exact X. }
     rewrite Hia. cbn [f_cas]. apply (get_put_eq gkey_eqb gkey_eqb_spec). }
   destruct H1 as (c1 & H1).
   assert (H2 : get gkey_eqb (gk d) (f_cas s2) = Some c1).
@@ -192,10 +200,7 @@ Proof.
       { intros. unfold file_index. destruct (is_manifest (d_mt d0)); [|reflexivity].
         destruct (file_fetch d0 s0) as [c1|]; [|reflexivity]. destruct (d_dig d0 =? b_hash c1); reflexivity. }
       assert (Hia : forall d0 s0, f_res (fst (file_index_after fx ov d0 s0)) = f_res s0).
-      { intros. unfold file_index_after. destruct (is_manifest (d_mt d0)); [|apply Hi].
-        destruct (file_fetch d0 s0) as [c1|]; [|reflexivity]. destruct (d_dig d0 =? b_hash c1); [|reflexivity].
-        pose proof (Hr (b_tl c1) s0) as X. destruct (file_restore fx ov (b_tl c1) s0) as [s2 [e|]]; cbn [fst] in *; [exact X|].
-        rewrite Hi. exact X. }
+      { intros d0 s0. apply (file_index_after_rel (fun a b => f_res b = f_res a)); auto. intros; congruence. }
       rewrite file_step_push_split. unfold file_push_store. destruct (d_name d =? 0).
       - destruct ig.
         + destruct (is_manifest (d_mt d)); [|reflexivity]. destruct (verify d c); [|reflexivity].
@@ -284,10 +289,9 @@ Qed.
 
 Lemma dig_absent_index_after fx ov g d s : dig_absent g s -> dig_absent g (fst (file_index_after fx ov d s)).
 Proof.
-  intro H. unfold file_index_after. destruct (is_manifest (d_mt d)); [|now apply dig_absent_index].
-  destruct (file_fetch d s) as [c1|]; [|exact H]. destruct (d_dig d =? b_hash c1); [|exact H].
-  pose proof (dig_absent_restore fx ov g (b_tl c1) s H) as Hr.
-  destruct (file_restore fx ov (b_tl c1) s) as [s2 [e|]]; cbn [fst] in *; [exact Hr | now apply dig_absent_index].
+  apply (file_index_after_rel (fun a b => dig_absent g a -> dig_absent g b)); auto.
+  - intros d0 a. apply dig_absent_index.
+  - intros tl a. apply dig_absent_restore.
 Qed.
 
 Lemma dig_absent_step fx ig ov g s o :
